@@ -132,3 +132,43 @@ pub fn find_sub(hay: &[u8], needle: &[u8]) -> Option<usize> {
     }
     hay.windows(needle.len()).position(|w| w == needle)
 }
+
+/// Replace d[pos..pos+remove) by `insert` and adjust the 32-bit size field of every superbox
+/// that properly encloses the box `sib` (the box being dropped, replaced or inserted next to).
+pub fn splice(d: &[u8], pos: usize, remove: usize, insert: &[u8], sib: (usize, usize)) -> Option<Vec<u8>> {
+    fn collect(bs: &[JBox], sib: (usize, usize), out: &mut Vec<usize>) {
+        for b in bs {
+            if &b.typ == b"jumb" && b.start <= sib.0 && b.end >= sib.1 && (b.start, b.end) != sib {
+                out.push(b.start);
+                collect(&b.children, sib, out);
+            }
+        }
+    }
+    let mut anc = Vec::new();
+    collect(&parse(d), sib, &mut anc);
+    let mut v = Vec::with_capacity(d.len() + insert.len());
+    v.extend_from_slice(&d[..pos]);
+    v.extend_from_slice(insert);
+    v.extend_from_slice(&d[pos + remove..]);
+    for a in anc {
+        let old = u32::from_be_bytes(d[a..a + 4].try_into().ok()?) as i64;
+        if old < 8 {
+            return None; // extended or to-end sizes: not produced by the SDK writer
+        }
+        let new = old + insert.len() as i64 - remove as i64;
+        if new < 8 || new > u32::MAX as i64 {
+            return None;
+        }
+        v[a..a + 4].copy_from_slice(&(new as u32).to_be_bytes());
+    }
+    Some(v)
+}
+
+/// (start, end) of the claim and signature superboxes of the last (active) manifest.
+pub fn claim_and_signature(d: &[u8]) -> Option<((usize, usize), (usize, usize))> {
+    let top = parse(d);
+    let m = top.first()?.children.iter().filter(|c| &c.typ == b"jumb").last()?;
+    let c = m.children.iter().find(|c| c.label.as_deref().map(|l| l.starts_with("c2pa.claim")).unwrap_or(false))?;
+    let s = m.children.iter().find(|c| c.label.as_deref() == Some("c2pa.signature"))?;
+    Some(((c.start, c.end), (s.start, s.end)))
+}
